@@ -8,6 +8,7 @@ import (
 	"time"
 
 	"github.com/fxamacker/cbor/v2"
+	"go.flow.arcalot.io/pluginsdk/mcrt"
 	"go.flow.arcalot.io/pluginsdk/schema"
 	"verif/engine/lib"
 	"verif/engine/ux"
@@ -74,11 +75,42 @@ func (c *ctx) fail(sig, detail string, i int, raw any) {
 }
 
 func (c *ctx) guard(step string, i int, raw any, f func()) bool {
+	if step == "round trip" && c.spec != nil && smallObjects(c.spec) {
+		// the whole pipeline under the sorted iteration order and under every single deviating order of every map the
+		// operations range over (map-order seam; schema/ is built with the maporder rewrite for this check): whether a
+		// value is accepted, and what comes back, must not depend on which property or key is visited first
+		ok := true
+		e := &mcrt.Explorer{Embedded: true, MaxPreempt: 0, MaxDelay: -1, MaxDeviate: 1, MaxSteps: 1 << 20, Body: f, Check: func(r *mcrt.Result) bool {
+			c.res.Transitions++
+			if r.Status == mcrt.StPanic {
+				ok = false
+				c.fail(fmt.Sprintf("panic in %s: %s", lib.PanicSite(r.PanicStack), lib.PanicClass(r.PanicValue)), fmt.Sprintf("%s panicked: %v", step, r.PanicValue), i, raw)
+			}
+			return true
+		}}
+		e.Deadline = ux.BatchDeadline()
+		e.All()
+		if e.Stats.Capped {
+			c.res.Capped = true
+		}
+		return ok
+	}
 	pan, val, stack := ukit.Call(f)
 	if pan {
 		c.fail(fmt.Sprintf("panic in %s: %s", lib.PanicSite(stack), lib.PanicClass(fmt.Sprint(val))), fmt.Sprintf("%s panicked: %v", step, val), i, raw)
 	}
 	return !pan
+}
+
+// smallObjects: no object of the spec has more than four properties (the order menu is complete up to four keys).
+func smallObjects(spec *ukit.Spec) bool {
+	ok := true
+	spec.Walk(func(n *ukit.Spec) {
+		if n.Kind == ukit.KObject && len(n.Props) > 4 {
+			ok = false
+		}
+	})
+	return ok
 }
 
 func kind(s *ukit.Spec) string {
